@@ -28,7 +28,7 @@ def shards(tier):
 
 def floors(tier):
     return {"decoder_cases": 3000, "decoder_atoms_checked": 30000, "multi_fragment": 1000, "with_nop": 500, "nested_atoms": 3000,
-            "fragment_ends_in_index_read": 100, "encoder_cases": 1500, "encoder_pairs_checked": 10000, "entries_checked": 50000}
+            "fragment_ends_in_index_read": 100, "encoder_cases": 1500, "encoder_pairs_checked": 10000, "entries_checked": 50000, "outputs_with_percent_labels": 100}
 
 
 def as_list(am):
@@ -49,6 +49,8 @@ def run(ctx):
             table = sf.get_semantic_constraints()
             g = LiveGen(table, rng, p_branch=0.22)
         x = g.string(nfrag=rng.choice([1, 2, 2, 3]), length=rng.choice([5, 15, 40, 100]))
+        if it % 8 == 7:
+            x = g.string(nfrag=rng.choice([1, 2]), length=rng.choice([150, 300]), ring_dense=True)
         if rng.random() < 0.25:
             # end a fragment inside an index read
             frs = x.split(".")
@@ -83,6 +85,8 @@ def run(ctx):
             ctx.count("multi_fragment")
         if "[nop]" in x:
             ctx.count("with_nop")
+        if "%" in out:
+            ctx.count("outputs_with_percent_labels")
         insyms = [t for t in tokens_with_dots(x) if t not in (".", "[nop]")]
         try:
             ref = ref_decode(x, table)
@@ -140,7 +144,7 @@ def run(ctx):
         if rng.random() < 0.15:
             m, _, _ = standard_system(rng, nrings=rng.choice([1, 2]))
         else:
-            m = random_tree_mol(rng, rng.choice([1, 3, 6, 12, 25]), ncomp=rng.choice([1, 1, 2]), p_ring=rng.choice([0.1, 0.3]),
+            m = random_tree_mol(rng, rng.choice([1, 3, 6, 12, 25]), ncomp=rng.choice([1, 1, 2, 3, 4]), p_ring=rng.choice([0.1, 0.3]),
                                 p_bracket=0.3, table=lax)
         if not m.atoms:
             continue
